@@ -201,6 +201,46 @@ def many_variables():
     return out
 
 
+def constants_in_text():
+    """the text returned with graph=True, executed with ITS OWN listed constants, equals the call - for operations that differ only in a constant
+    whose printed form is identical (the header comment prints str(value), the name const<i> is the only trace in the text)"""
+    import einx
+    out = []
+
+    class Affine:
+        def __init__(self, k):
+            self.k = k
+
+        def __call__(self, x, y):
+            return np.asarray(x * self.k + y)
+
+        def __repr__(self):
+            return "Affine()"
+
+    x, y = np.arange(6.0).reshape(2, 3), np.ones((2, 3))
+    for rnd in range(2):
+        for k in (2.0, 3.0, 5.0):
+            fn = Affine(k)
+            ad = einx.numpy.adapt_numpylike_elementwise(fn)
+            d = {"op": "adapted elementwise", "description": "a b, a b -> a b", "shapes": [[2, 3], [2, 3]], "kwargs": {"constant": f"Affine(k={k}) printed as {fn!r}", "round": rnd}}
+            o = harness.outcome(lambda: ad("a b, a b -> a b", x, y))
+            if o[0] != "ok" or not np.array_equal(o[1], x * k + y):
+                out.append(("C04.B.E6_returned_text_is_executed_text", d, f"call with a constant whose printed form equals that of an earlier constant returned {o[1] if o[0] == 'ok' else o[:2]}, expected x*{k}+y (compiled function of another operation reused?)"))
+                continue
+            t = harness.outcome(lambda: ad("a b, a b -> a b", x, y, graph=True))
+            if t[0] != "ok" or "const1" not in str(t[1]):
+                out.append(("ok", d, None))
+                continue
+            ns = {"const1": fn}
+            try:
+                exec(t[1], ns, ns)
+                r = ns["op"](x, y)
+                out.append(("ok", d, None) if np.array_equal(r, x * k + y) else ("C04.B.E6_returned_text_is_executed_text", d, "returned text executed with its own constant differs from the call"))
+            except Exception as e:  # noqa
+                out.append(("C04.B.E2_closed", d, f"returned text does not run with its listed constant: {type(e).__name__}: {e}"))
+    return out
+
+
 def run(tier, seed):
     chk = Check("C04", tier, seed, "other")
     ok, sites, failing = frame.rule_flow_compile()
@@ -213,7 +253,7 @@ def run(tier, seed):
     res = [x for r in harness.pmap(_work, [(seed, i) for i in range(n)]) for x in r]
     m = 16 if tier == "quick" else 800
     syn = [x for r in harness.pmap(_synth, [(seed, i) for i in range(m)]) for x in r]
-    names = many_variables()
+    names = many_variables() + constants_in_text()
     allr = res + syn + names
     unsupported = [r for r in allr if r[0] == "unsupported"]
     fails = [r for r in allr if r[0] not in ("ok", "unsupported", "checker")]
